@@ -167,6 +167,9 @@ class BaseRequest:
         elif content_type != "multipart/form-data":
             return r
 
+        # like POST: parse the body from its start, whatever was read before
+        self.make_body_seekable()
+        self.body_file_raw.seek(0)
         fs_environ = self.environ.copy()
         fs_environ.setdefault("CONTENT_LENGTH", "0")
         fs_environ["QUERY_STRING"] = ""
@@ -179,6 +182,7 @@ class BaseRequest:
         )
 
         fout = t.transcode_fs(fs, r._content_type_raw)
+        self.body_file_raw.seek(0)
 
         # this order is important, because setting body_file
         # resets content_length
